@@ -543,6 +543,11 @@ def run(ctx, V):
     for i, case in enumerate(cases):
         files, exc = run_impl(case, work, str(i))
         obs, fails = judge(case, files, exc, V)
+        if case["depth"] == 0 and case["parallel"] > 1 and exc is None and obs == []:
+            # the level-0 callback raised inside a worker process: the child prints the traceback and
+            # visit_leaves(parallel > 1) returns normally (that swallowing is C19's subject).  For this
+            # property the observable is the same as a raise: nothing was sampled.
+            obs, exc = None, "AttributeError: 'NoneType' object ... (raised in a worker process; no tile written)"
         results.append((case, obs, fails, exc))
         key = f"{'clobber' if case['clobber'] else 'update'}/{case['default']}" + (f">{case['override']}" if case["override"] else "") + \
               f"/{case['kind']}/d{case['depth']}/par{case['parallel']}"
